@@ -400,7 +400,28 @@ func runC02(c *ctx) {
 		c.Class("msg/length>=2^24")
 		c02Msg(c, &ref.Msg{Stream: 6, Function: 11, W: 0, Dir: "H<-E", Item: many, Session: 1, Sys: [4]byte{0, 0, 0, 9}})
 	}
-	c.Required = []string{"msg/length>=2^24", "msg/session-unset-again", "msg/complete", "msg/+vars", "msg/+optW", "msg/+nosession", "f4/finite-patterns", "f4round/in-range", "f4round/overflow", "lenbytes=3/A", "lenbytes=2/L"}
+	// an empty item (the placeholder the parsers use on errors) as a list element has no SECS-II encoding: a tree that
+	// holds one encodes to nothing, and so does a message around it - never to a header without its text
+	for _, build := range []func() ast.ItemNode{
+		func() ast.ItemNode { return ast.NewListNode(ast.NewUintNode(1, 1), ast.NewEmptyItemNode()) },
+		func() ast.ItemNode { return ast.NewListNode(ast.NewListNode(ast.NewEmptyItemNode())) },
+		func() ast.ItemNode {
+			return ast.NewListNode("lv", ast.NewBinaryNode(1)).FillVariables(map[string]interface{}{"lv": ast.NewEmptyItemNode()})
+		},
+	} {
+		var itemBytes, msgBytes []byte
+		o := real.Try(func() {
+			it := build()
+			itemBytes = it.ToBytes()
+			msgBytes = ast.NewDataMessage("", 1, 1, 0, "H->E", it).SetSessionIDAndSystemBytes(3, []byte{0, 0, 0, 1}).ToBytes()
+		})
+		c.NoteBulk(1, 1)
+		c.Class("empty-item-inside-a-list")
+		if !o.Panicked && (len(itemBytes) != 0 || len(msgBytes) != 0) {
+			c.Violation("C02/msg/partial-bytes-for-a-tree-with-an-empty-item", fmt.Sprintf("item bytes %x, message bytes %x", clipB(itemBytes), clipB(msgBytes)), c02Case{Op: "empty-item"})
+		}
+	}
+	c.Required = []string{"empty-item-inside-a-list", "msg/length>=2^24", "msg/session-unset-again", "msg/complete", "msg/+vars", "msg/+optW", "msg/+nosession", "f4/finite-patterns", "f4round/in-range", "f4round/overflow", "lenbytes=3/A", "lenbytes=2/L"}
 }
 
 func replayC02(c *ctx, raw json.RawMessage) {
